@@ -31,7 +31,9 @@ inductive Pc
   | ctxCheck                                -- about to test ctx.Err()
   | loopTop (k : Nat) (last : Option Nat)   -- top of the retry loop, attempt k, execErr so far
   | inExec (k : Nat)                        -- inside the user's exec callback (gated)
-  | store (r : Result)                      -- about to lock mu and write results[idx] (+ set shouldStop)
+  | store (r : Result) (failed : Bool)      -- about to lock mu and write results[idx]; `failed` = runExecWithRetries
+                                            -- returned an error (only then is shouldStop raised — an error *Result*
+                                            -- returned as a value with a nil error does not stop the batch)
   deriving DecidableEq, Repr
 
 inductive Obs
@@ -100,7 +102,7 @@ def apply (c : Cfg) (s : BState) : Label → Option BState
       let o := c.exec i k
       let s := { s with cancelled := s.cancelled || o.cancels, log := .done i k :: s.log }
       (match o.res with
-       | .ok x => some (setPc s i (.store (slotOfVal (execRet c.execS x))))
+       | .ok x => some (setPc s i (.store (slotOfVal (execRet c.execS x)) false))
        | .error e => some (setPc s i (.loopTop (k + 1) (some e))))
     | _ => none
   | .step i =>
@@ -115,26 +117,26 @@ def apply (c : Cfg) (s : BState) : Label → Option BState
       else some (setPc s i (.loopTop 0 none))
     | some (.loopTop k last) =>
       if k < c.budget then
-        if s.cancelled then some (setPc s i (.store (newErrorResult (.ctx c.kind))))
+        if s.cancelled then some (setPc s i (.store (newErrorResult (.ctx c.kind)) true))
         else
           match c.execS with
-          | .absent => some (setPc s i (.store (slotOfVal Val.nil)))
+          | .absent => some (setPc s i (.store (slotOfVal Val.nil) false))
           | _ => some (setPc { s with log := .start i k :: s.log } i (.inExec k))
       else
         (match last with
-         | none => some (setPc s i (.store (slotOfVal Val.nil)))
+         | none => some (setPc s i (.store (slotOfVal Val.nil) false))
          | some e =>
            match c.fb with
            | .custom =>
              let o := c.fbOut i
              let s := { s with cancelled := s.cancelled || o.cancels, log := .fb i :: s.log }
              (match o.res with
-              | .ok x => some (setPc s i (.store (slotOfVal x)))
-              | .error e' => some (setPc s i (.store (newErrorResult (.user e')))))
-           | _ => some (setPc s i (.store (newErrorResult (.user e)))))
-    | some (.store r) =>
+              | .ok x => some (setPc s i (.store (slotOfVal x) false))
+              | .error e' => some (setPc s i (.store (newErrorResult (.user e')) true)))
+           | _ => some (setPc s i (.store (newErrorResult (.user e)) true)))
+    | some (.store r failed) =>
       some (finish { s with slots := setSlot s.slots i r,
-                            shouldStop := s.shouldStop || (r.isError && c.stop) } i)
+                            shouldStop := s.shouldStop || (failed && c.stop) } i)
     | _ => none
 
 /-! ### deterministic simulation of a *gated* run -/
